@@ -31,6 +31,14 @@ CHECKS = {
         "Same trusted base as C05; D=1 quick, D=2 thorough; prompt virtual time.",
         "3/C06",
     ),
+    "C27": (
+        "model_checking",
+        "sim",
+        "history monitor evaluated on every execution of a deviation-bounded exhaustive schedule exploration of two real AEs",
+        "Every schedule with at most D deviations of all 25 two-AE life-cycle scenarios is executed on the real code with recording handlers bound to all notification events and a wire tap on the simulated connection; the monitor checks FSM-transition chaining, connection open/close ordering and multiplicity, established-before-terminal, and equality of PDU/DATA notifications with the bytes that crossed the wire.",
+        "Same trusted base as C05/C06; bytes written to a connection whose peer already closed count as having crossed the wire.",
+        "3/C27",
+    ),
     "C28": (
         "exploration",
         "enum",
